@@ -11,7 +11,6 @@ import (
 	"syscall"
 	"time"
 
-	"github.com/internetarchive/Zeno/internal/pkg/controler"
 	"github.com/internetarchive/Zeno/internal/verif/vc"
 	"github.com/internetarchive/Zeno/pkg/models"
 )
@@ -67,7 +66,7 @@ func c04Child(scPath string) int {
 			inl.Write(append(b, '\n'))
 		}
 	}
-	controler.Start()
+	pr.start(false)
 	os.WriteFile(filepath.Join(dir, fmt.Sprintf("started-%d", sc.Run)), []byte("1"), 0o644)
 	v := pr.waitQuiescent(6500*time.Millisecond, 12*time.Second, 120*time.Second)
 	if v != "stopped" {
